@@ -1,7 +1,7 @@
 (* C09 -- A failing task stops the workflow; failure is never silent.  Model: TaskFS (see PropC01). *)
 From Coq Require Import List Arith Lia Bool PeanoNat String.
 Import ListNotations.
-From SP Require Import Skel Gen Expected Result TaskFS TInv TPres Glue Cor TaskTop.
+From SP Require Import Skel Gen Expected ExpectedCones Result TaskFS TInv TPres Glue Cor TaskTop.
 From SP Require FailWindow.
 
 (* T1: Fail is os.Exit(1); a failing command, a missing output and a failing rename all reach Fail; no recover anywhere *)
@@ -59,6 +59,21 @@ Theorem C09_window_failed_is_stopped : forall (c : cfg) (w : FailWindow.wst) (a 
   FailWindow.failed w (node_of a) = true -> FailWindow.wstep c w (FailWindow.WTask a) = None.
 Proof. intros c w a F. unfold FailWindow.wstep. rewrite F. destruct (FailWindow.gone w); reflexivity. Qed.
 
+(* T1, call cones: every function of scipipe that the functions above can reach (calls and function values, interface calls
+   resolved to every implementation) is one the models were compared with -- a helper that is new to the cone, or a new call
+   of an old one, changes a list (the lists are regenerated from /repo on every run; ExpectedCones.v holds the accepted ones) *)
+Theorem C09_cone_conforms :
+  strs_eqb cone_Fail exp_cone_Fail
+  && strs_eqb cone_Failf exp_cone_Failf
+  && strs_eqb cone_CheckWithMsg exp_cone_CheckWithMsg
+  && strs_eqb cone_Task_Execute exp_cone_Task_Execute
+  && strs_eqb cone_Task_executeCommand exp_cone_Task_executeCommand
+  && strs_eqb cone_Task_ensureAllOutputsExist exp_cone_Task_ensureAllOutputsExist
+  && strs_eqb cone_FinalizePaths exp_cone_FinalizePaths
+  && strs_eqb cone_NewTask exp_cone_NewTask
+  && strs_eqb cone_NewFileIP exp_cone_NewFileIP = true.
+Proof. vm_compute. reflexivity. Qed.
+
 Print Assumptions C09_code_conforms.
 Print Assumptions C09_fail_is_exit.
 Print Assumptions C09_exit_is_final.
@@ -67,3 +82,4 @@ Print Assumptions C09_no_dependants.
 Print Assumptions C09_window_no_dependants.
 Print Assumptions C09_window_gone_is_final.
 Print Assumptions C09_window_failed_is_stopped.
+Print Assumptions C09_cone_conforms.
